@@ -201,6 +201,13 @@ def run_unit(unit_name, template_rel, variant):
         res["undecided"] = "extractor failure: %r" % e
         return res
     res["stats"] = stats
+    if "/lemmas/" in template_rel.replace("\\", "/") or template_rel.startswith("contracts/lemmas"):
+        body_ = text[text.find("// ===== unit text"):]
+        bad = [k for k in ("assume(", "admit(", "external_body", "assume_specification", "axiom") if k in body_]
+        if bad:
+            res["status"] = "undecided"
+            res["undecided"] = "Layer-2 lemma file contains unchecked assumptions: %s" % bad
+            return res
     path = os.path.join(BUILD, crate + ".rs")
     cpath = os.path.join(BUILD, crate + "__canary.rs")
     open(path, "w").write(text)
